@@ -469,6 +469,9 @@ class Unit:
             -> Tuple[float, str, str]:
         # Formulas used here are found in solution_formulas.rst
         c, numerator, denominator = Unit.parse_concentration(concentration)
+        if solvent.is_enzyme():
+            # (the formulas use the solvent's molar mass and its density in g/mL: an enzyme has neither)
+            raise ValueError("Solution is impossible to create. (An enzyme cannot be the solvent.)")
         if numerator not in ('g', 'L', 'mol', 'U'):
             raise ValueError("Invalid unit in numerator.")
         if denominator not in ('g', 'L', 'mol'):
